@@ -1,4 +1,5 @@
 import CssVerif.Lemmas.Mutators
+import CssVerif.Lemmas.MutatorTree
 import CssVerif.Gen.C11Scripts
 /-!
 # C11 — a rejected DOM mutation changes nothing
@@ -81,12 +82,130 @@ def exemptReadonly : List String := [
   "Property.cssText", "Property.name", "Property.propertyValue", "Property.value", "Property.priority",
   -- edits the style of an existing margin rule, which has its own read-only flag; a CSSPageRule *created*
   -- read-only has no margin rules (its constructor takes none), so this branch is not reachable for such objects
-  "CSSPageRule.__setitem__"]
+  "CSSPageRule.__setitem__",
+  -- known finding C11-readonly-unguarded-2 (known/C11.json, proposed-fixes/C11-readonly-unguarded-2.diff): public
+  -- mutators WITHOUT the read-only guard; `finding_readonly_unguarded_2` proves that their scripts are not safe
+  "SelectorList.__delitem__", "CSSStyleSheet.cssRules", "CSSMediaRule.cssRules", "CSSPageRule.cssRules",
+  "CSSRule.atkeyword"]
+
+/-- **finding C11-readonly-unguarded-2 at model level**: each of the five scripts, started on a read-only object,
+has a completed way of ending with a changed field (the analysis is exact here: the scripts are straight-line
+assignments without any guard) -/
+theorem finding_readonly_unguarded_2 :
+    (["SelectorList.__delitem__", "CSSStyleSheet.cssRules", "CSSMediaRule.cssRules", "CSSPageRule.cssRules",
+      "CSSRule.atkeyword"].all fun n =>
+        Gen.C11.scripts.any fun m => m.name == n && !ReadonlySafe m.fields m.body && !guardedFirst m.body) = true := by
+  decide +kernel
+
+/-- … and concretely: `del selectorList[i]` run on a read-only object ends normally with the field changed -/
+example : (run 10 (.mutate 0) (St.init true) []).exit = .norm ∧
+    (run 10 (.mutate 0) (St.init true) []).st.cur 0 ≠ (St.init true).cur 0 := by decide
+
+/-- **finding C11-encoding-override-internal at model level**: the parser-internal helper
+`CSSStyleSheet._setCssTextWithEncodingOverride` (listed apart in `Gen.C11.internalScripts`, not a public mutator) does
+NOT pass the discipline: it stores `__encodingOverride` / `__newEncoding` before `cssText` may reject, and assigns
+`encoding` (which may reject) after the new rules are committed -/
+theorem finding_encoding_override_internal :
+    (Gen.C11.internalScripts.all fun m => !Disciplined m.fields m.body && !(dirtyOnExc m.fields m.body).isEmpty) = true := by
+  decide +kernel
 
 /-- **T11.3 (instances)** every extracted mutator, started on a read-only object, leaves every field unchanged
 however it ends (except `exemptReadonly`) -/
 theorem all_readonly_safe :
     (Gen.C11.scripts.all fun m => ReadonlySafe m.fields m.body || exemptReadonly.contains m.name) = true := by
+  decide +kernel
+
+/-! ## T11.4 — the induction over the ownership depth
+
+`run` answers a `call f` (a public mutator of the child object held in field `f` is called) by the *contract* "the
+child raises and is unchanged, or it changes". `World.run` (`Model/MutatorTree.lean`) answers it by running one of
+the child's own scripts on the child's state, the child's calls answered the same way one level further down, and
+reports "raised" and "changed" independently. The theorems below derive the contract from `Disciplined` for the
+whole ownership tree, for every depth. -/
+
+/-- **T11.4a `child_contract_derived`** — in an ownership tree whose every mutator passes the discipline and whose
+objects are in well-formed states, at EVERY ownership depth `d` and for EVERY object `key`: a child call that
+ends with a DOM exception reports the child unchanged (all observable fields of the child mutator that ran hold the
+versions they had). This is the assumption `Handler.shallow` builds in, now a consequence. Induction on `d`. -/
+theorem child_contract_derived (W : World) (hd : W.Disciplined) (hwf : W.WF) (d : Nat) (key : Key) :
+    (W.handler d key).Atomic :=
+  W.handler_atomic hd hwf d key
+
+/-- **T11.4b `tree_atomic`** — atomicity for the whole object tree at any depth: a disciplined mutator run on ANY
+object of such a tree, its child calls really executed `d` levels deep (any `d`), any fuel, any start state, any
+outcome sequence: if it ends with a DOM exception, every observable field of the object holds the version it had
+before the call. (A field keeps its version only while the child it holds is observably unchanged — `runG`, case
+`call` — so this is a statement about the subtree, made explicit in `tree_atomic_obs`.) -/
+theorem tree_atomic (W : World) (hd : W.Disciplined) (hwf : W.WF) (d : Nat) (key : Key)
+    (m : Script) (hm : m ∈ W.scripts key) (fuel : Nat) (st : St) (os : Outcomes) (hst : st.WF)
+    (hexc : (W.run d key fuel m.body st os).exit = .exc ∨ (W.run d key fuel m.body st os).exit = .roExc) :
+    ∀ f ∈ m.fields, (W.run d key fuel m.body st os).st.cur f = st.cur f :=
+  W.run_atomic hd hwf d key m.fields m.body (hd key m hm) fuel st os hst hexc
+
+/-- **T11.4c `tree_atomic_obs`** — the same as an equation between observable trees: unfolded to ANY number `n` of
+levels (field versions of the object, of the children they denote, of their children …) the tree below the object
+is the same after a rejected call as before, provided the observable fields of the object's class are among the
+fields of the mutator's script. -/
+theorem tree_atomic_obs (W : World) (hd : W.Disciplined) (hwf : W.WF) (d : Nat) (key : Key)
+    (m : Script) (hm : m ∈ W.scripts key) (fuel : Nat) (st : St) (os : Outcomes) (hst : st.WF)
+    (hexc : (W.run d key fuel m.body st os).exit = .exc ∨ (W.run d key fuel m.body st os).exit = .roExc)
+    (fields : Key → List Field) (hf : ∀ f ∈ fields key, f ∈ m.fields) (n : Nat) :
+    W.obs fields n key (W.run d key fuel m.body st os).st = W.obs fields n key st :=
+  W.obs_congr fields n key _ _ fun f h => tree_atomic W hd hwf d key m hm fuel st os hst hexc f (hf f h)
+
+/-- **T11.4d `cssutils_tree_atomic`** — the instance for the code: every ownership tree all of whose objects carry
+extracted mutators of the current source (`Gen.C11.scripts`, T11.2) is atomic under rejection at every depth. -/
+theorem cssutils_tree_atomic (W : World) (hW : ∀ k, ∀ m ∈ W.scripts k, m ∈ Gen.C11.scripts) (hwf : W.WF)
+    (d : Nat) (key : Key) (m : Script) (hm : m ∈ W.scripts key) (fuel : Nat) (st : St) (os : Outcomes)
+    (hst : st.WF)
+    (hexc : (W.run d key fuel m.body st os).exit = .exc ∨ (W.run d key fuel m.body st os).exit = .roExc) :
+    ∀ f ∈ m.fields, (W.run d key fuel m.body st os).st.cur f = st.cur f :=
+  tree_atomic W (fun k m hm => List.all_eq_true.mp all_disciplined m (hW k m hm)) hwf d key m hm fuel st os hst hexc
+
+/-- a three-level tree (non-vacuity): every object has the one mutator "delegate to the child in field 0, or raise";
+started at the root with three ownership levels, the decisions "delegate, delegate, raise" end with a DOM
+exception that travelled up two levels -/
+def exLevel : Script := ⟨"Level.set", [0], .choice (.call 0) .raise⟩
+def exWorld : World := ⟨fun _ => [exLevel], fun _ => St.init false⟩
+example : exWorld.Disciplined := by
+  intro k m hm
+  have : m = exLevel := by simpa [exWorld] using hm
+  subst this; decide
+example : exWorld.WF := by
+  intro k (f : Nat)
+  show (if f < 1000000 then f else 0) < 2000000
+  split
+  · rename_i h; exact Nat.lt_trans h (by decide)
+  · decide
+example : (exWorld.run 2 [] 10 exLevel.body (St.init false) [true, false, true, false, false]).exit = .exc := by
+  decide
+
+/-- the extra hypotheses of T11.4c / T11.4d are satisfiable: the observable fields `[0]` of `exLevel` are fields of its
+script; a world whose objects all carry the extracted mutators satisfies `hW` -/
+example : ∀ f ∈ (fun (_ : Key) => [0]) ([] : Key), f ∈ exLevel.fields := by
+  intro f hf; simpa [exLevel] using hf
+example : ∀ (k : Key), ∀ m ∈ (⟨fun _ => Gen.C11.scripts, fun _ => St.init false⟩ : World).scripts k,
+    m ∈ Gen.C11.scripts := fun _ _ h => h
+
+/-- the deep semantics does NOT build the contract in (the theorem is not true by construction): with an
+undisciplined child mutator ("assign, then raise") a rejected `call 0` leaves field 0 of the parent changed -/
+def exBadWorld : World := ⟨fun _ => [⟨"Bad.set", [0], seqs [.assign 0, .raise]⟩], fun _ => St.init false⟩
+example : (exBadWorld.run 1 [] 10 (.call 0) (St.init false) [false]).exit = .exc ∧
+    (exBadWorld.run 1 [] 10 (.call 0) (St.init false) [false]).st.cur 0 ≠ (St.init false).cur 0 := by decide
+
+/-- **T11.4e (tie, table level)** every `call` site of the extracted scripts names a member for which at least one
+extracted (hence, by T11.2, disciplined) script exists, and the names the table resolves to are scripts of the list;
+`callSites` counts the `call` statements the scripts really contain (so the sites exist: 13 on the current tree) -/
+theorem call_deps_covered :
+    (Gen.C11.callDeps.all fun e => e.2.all fun d =>
+      !d.2.isEmpty && d.2.all fun n => (Gen.C11.scripts.map (·.name)).contains n) = true := by decide
+
+/-- the sites where a private helper of a child (no public mutator, no script) is called keep the assumed contract;
+each such (script, helper) pair carries a written justification in the translator, and none is unjustified -/
+theorem helper_deps_justified : Gen.C11.helperDepsUnjustified = [] := by decide
+
+theorem call_sites_counted :
+    ((Gen.C11.scripts ++ Gen.C11.internalScripts).map fun m => countCalls m.body).sum = Gen.C11.callSites := by
   decide +kernel
 
 /-- the translator extracted every mutator it was asked for -/
